@@ -210,6 +210,8 @@ SortedFiles::SortedFiles(const Config &config, util::FilePiece &f, std::vector<u
     size_t size_out = (counts[0] + 1) * sizeof(ProbBackoff);
     util::scoped_mmap unigram_mmap(util::MapZeroedWrite(unigram_.get(), size_out), size_out);
     Read1Grams(f, counts[0], vocab, reinterpret_cast<ProbBackoff*>(unigram_mmap.get()), warn);
+    // Entries hallucinated for pruned models may be based on <unk>: its default must be in place before they are made.
+    if (!vocab.SawUnk()) reinterpret_cast<ProbBackoff*>(unigram_mmap.get())[0].prob = config.unknown_missing_logprob;
     CheckSpecials(config, vocab);
     if (!vocab.SawUnk()) ++counts[0];
   }
